@@ -129,6 +129,12 @@ def write_replay(ctx, name, payload):
 
 def finish(ctx, level="proof", checker_cmd=None):
     """Print verdict lines, write evidence, return exit status."""
+    # an exception inside a case function (bridge, oracle or the code under test behaving in a way the harness did not
+    # foresee) means that case was NOT checked: never skip it silently -- it breaks the tie for this run
+    he = [h for h in (ctx.cov.get("harness_errors") or []) if "worker died" not in str(h)]
+    if he:
+        ctx.tie_break("harness-error", {"count": len(he), "first": [str(h)[:300] for h in he[:3]],
+                                        "note": "case function raised; the case could not be checked (absent on the unchanged tree)"})
     new_failures = []
     for fl in ctx.oracle_failures:
         e = match_known(ctx, fl)
